@@ -25,6 +25,7 @@ pub assume_specification<T, E> [Result::<T, E>::unwrap_or_default] (res: Result<
     ensures res is Ok ==> r == res->Ok_0, res is Err ==> call_ensures(T::default, (), r);
 // String::from_utf8 (std): decoding of one option value, None if it is not valid UTF-8
 pub uninterp spec fn utf8_text(b: Seq<u8>) -> Option<Seq<char>>;
+pub uninterp spec fn joined_path_text(p: Packet) -> Seq<char>;
 pub open spec fn uri_path(p: Packet) -> Seq<Seq<u8>> { if opts_view(p.options).contains_key(11) { opts_view(p.options)[11] } else { Seq::empty() } }
 pub open spec fn path_valid(p: Packet) -> bool { forall|i: int| 0 <= i < uri_path(p).len() ==> utf8_text(#[trigger] uri_path(p)[i]) is Some }
 pub open spec fn path_segs(p: Packet) -> Seq<Seq<char>> { Seq::new(uri_path(p).len(), |i: int| utf8_text(uri_path(p)[i]).unwrap()) }
@@ -76,7 +77,7 @@ def build(repo):
     common.packet_struct(u)
     u.item('response.rs', 'pub struct CoapResponse')
     u.item('request.rs', 'pub struct CoapRequest<Endpoint>')
-    u.impl_fns('request.rs', 'impl<Endpoint> CoapRequest<Endpoint>', ['get_method', 'get_path_as_vec'])
+    u.impl_fns('request.rs', 'impl<Endpoint> CoapRequest<Endpoint>', ['get_method', 'get_path_as_vec', 'get_path'])
     u.item('block_handler/mod.rs', 'pub struct RequestCacheKey<Endpoint: Ord + Clone>')
     u.item('block_handler/mod.rs', 'impl<Endpoint: Ord + Clone> From<&CoapRequest<Endpoint>> for RequestCacheKey<Endpoint>')
     u.assemble()
@@ -93,6 +94,10 @@ def build(repo):
     u.contract((RQ, 'get_path_as_vec'), '''        ensures path_valid(self.message) ==> r is Ok && strs(r->Ok_0) == path_segs(self.message),
             !path_valid(self.message) ==> r is Err''')
     u.stub_fn((RQ, 'get_path_as_vec'))
+    # get_path (the '/'-joined string, verified in unit path) is available to the key constructor as an opaque function of the
+    # message: a key built from it cannot be shown to hold the segment list
+    u.contract((RQ, 'get_path'), '        ensures r@ == joined_path_text(self.message)')
+    u.stub_fn((RQ, 'get_path'))
     u.contract(('impl From<MessageClass> for u8', 'from'), '        ensures r == u8_of_class(class)', props=PROPS)
     u.contract(KF, '''        ensures
             // @clause key-is-method-path-endpoint @props C12
